@@ -171,7 +171,86 @@ def c04(ctx):
                'non-trivial = more than one variant or an explicit discriminant')
 
 
+# ---------------------------------------------------------------- C07
+def c07(ctx):
+    quick = ctx.tier == 'quick'
+    runs = [{'module': 'MC_C07', 'cfg': 'MC_C07_quick.cfg', 'workers': 8}] if quick else \
+           [{'module': 'MC_C07', 'cfg': 'MC_C07_thorough.cfg', 'workers': 12, 'timeout': 3000, 'heap': '16g'}]
+
+    def calls(r):
+        return ['run_clone::<%s, _>(&mut out, &dom);' % r.name]
+
+    r_property(ctx, runs, ['DoSeal', 'DoBegin', 'Step', 'Return'], TypeRender, calls, [0, 1] if quick else [0, 1, 2],
+               COMMON_ASSUMPTIONS + ['the probe field type is Copy with a hand-written logging Clone, so a bitwise copy leaves generation 0 and no call, '
+                                     'while a field-wise clone leaves generation 1/2/3 and a call'],
+               'struct/enum shapes within the bounds of the MC_C07 cfg x Clone {own, method} per field x {Clone; Clone, Copy; Copy, Clone}; clone() of every value and '
+               'clone_from for every ordered pair (same and different variants), results observed as per-field fingerprints (origin, value, how produced); '
+               'a compile-time `T: Copy` assertion for every type that educes Copy; non-trivial = more than one variant or a non-default field attribute')
+
+
+# ---------------------------------------------------------------- C06
+class DebugRender(TypeRender):
+    def __init__(self, idx, cfg, prop):
+        super().__init__(idx, cfg, prop)
+        from render import NAME_POOLS, pick
+        # ordinary identifiers only (raw identifiers are outside "byte-identical to derive(Debug)")
+        self.pool = [None, NAME_POOLS[2], NAME_POOLS[3]][pick([0, 0, 1, 2], idx, 'names')]
+
+    def has_params(self):
+        c = self.cfg
+        if c['opts']['dname'] != 'default' or c['opts']['dnf'] != 'default':
+            return True
+        for var in c['variants']:
+            if var['dname'] != 'default' or var['dnf'] != 'default':
+                return True
+            for f in var['fields']:
+                if f['dbg'] != 'own' or f['key']:
+                    return True
+        return False
+
+    def extra_items(self):
+        if self.has_params():
+            return ''
+        # twin type with #[derive(Debug)], same names, in its own module
+        c = self.cfg
+        saved = self.type_attr
+        item = self.item()
+        plain = item[item.index(' struct ' if c['kind'] == 'struct' else ' enum '):]
+        # strip educe attributes of the item head; field/variant attrs are absent because there are no params
+        arms = ' '.join('%d => %s,' % (v, self.ctor(v, var)) for v, var in enumerate(c['variants'], 1))
+        return ('mod d%d { use probes::*; #[derive(Debug)] pub%s pub fn make(s: u8, v: usize, x: &[i8]) -> %s { match v { %s _ => unreachable!() } } }'
+                % (self.idx, plain.replace('{ f', '{ pub f').replace(', f', ', pub f') if False else plain, self.name, arms))
+
+    def names_literal(self):
+        parts = []
+        for v, var in enumerate(self.cfg['variants'], 1):
+            ns = []
+            for i in range(1, len(var['fields']) + 1):
+                ns.append('"%s"' % (self.fname(v, i) if var['style'] == 'named' else ''))
+            parts.append('&[%s][..]' % ', '.join(ns))
+        return '&[%s]' % ', '.join(parts)
+
+
+def c06(ctx):
+    quick = ctx.tier == 'quick'
+    runs = [{'module': 'MC_C06', 'cfg': 'MC_C06_quick.cfg', 'workers': 8}] if quick else \
+           [{'module': 'MC_C06', 'cfg': 'MC_C06_thorough.cfg', 'workers': 12, 'timeout': 3000, 'heap': '16g'}]
+
+    def calls(r):
+        twin = 'None' if r.has_params() else 'Some(&|v: usize, x: &[i8]| fmt_both(&d%d::make(0, v, x)))' % r.idx
+        return ['run_fmt::<%s, _>(&mut out, &dom, "%s", %s, %s);' % (r.name, r.name, r.names_literal(), twin)]
+
+    r_property(ctx, runs, ['DoSeal', 'DoBegin', 'Step', 'Return'], DebugRender, calls, [0, 1],
+               COMMON_ASSUMPTIONS + ['probe Debug output is single-line ("p<v>" / "m<v>"), so the pretty printer does not re-indent values'],
+               'struct/enum shapes within the bounds of the MC_C06 cfg x type-level name {default, off, on, custom} x named_field x variant-level name/named_field x '
+               'field-level {own, ignore, method} x rename, with at most MaxDeviations non-default settings per configuration (t-way coverage); every value formatted with '
+               '{:?} and {:#?}; the text must equal the TLA+ renderer of the effective shape, the field fmt calls must be exactly the shown fields in order, and '
+               'configurations without parameters must print byte-identically to a #[derive(Debug)] twin; non-trivial = any non-default setting or more than one variant')
+
+
 REGISTRY = {
+    'C06': c06,
+    'C07': c07,
     'C04': c04,
     'C05': c05,
     'C03': c03,
